@@ -8,34 +8,30 @@ RULE = ("random well-formed schemas built as a tree and printed as SDL (schema b
         "scalars, enums with deprecated values, input objects with defaults of every value kind (ints, floats with "
         "exponents, plain/escaped/block strings, enums, lists, nested objects, null), interfaces, objects implementing "
         "them, unions, custom directives with several locations, optional Mutation/Subscription roots, wrapping depth "
-        "0-4; mode 'lossy' adds exactly one construct outside the theorems' hypotheses (interface implementing "
-        "interface, repeatable, deprecated arguments/input fields, @specifiedBy, @oneOf, escapes or quotes in reasons, "
-        "reason: null, block-string default ending in a quote, directive/type name collision, redeclared built-in, "
-        "non-root object named Mutation/Subscription) or, 1 in 6, any of them; mode 'malformed' breaks one "
+        "0-4, and (since their repair) interfaces implementing interfaces, repeatable directives, deprecated "
+        "arguments/input fields, @specifiedBy, reason: null, directive/type name collisions; mode 'lossy' adds exactly one "
+        "construct outside the theorems' hypotheses (@oneOf, escapes or quotes in reasons, block-string default ending in "
+        "a quote, redeclared built-in, non-root object named Mutation/Subscription) or, 1 in 6, any of them; mode 'malformed' breaks one "
         "well-formedness rule.  A case is distinct by the hash of its line and non-trivial when the schema is "
         "well-formed (wf_schema) and has an interface, a type reference of wrapping depth >= 2 and a default value.")
 
-# lossy clause of coq/C17/Spec.v -> finding key
+# lossy clause of coq/C17/Spec.v -> finding key.  Repaired findings (convert-drops-interface-implements,
+# convert-drops-repeatable, convert-drops-specified-by, convert-drops-inputvalue-deprecation,
+# deprecated-reason-null-panic, typeref-kind-name-collision) have no clause and no mapping any more:
+# a regression shows up as an unclassified spec failure, i.e. a VIOLATION.
 KEYS = {
-    "interface-implements": "convert-drops-interface-implements",
-    "repeatable": "convert-drops-repeatable",
-    "inputvalue-deprecated": "convert-drops-inputvalue-deprecation",
-    "specified-by": "convert-drops-specified-by",
     "one-of": "oneof-not-introspected",
     "string-escapes": "introspection-raw-string-escapes",
-    "reason-null": "deprecated-reason-null-panic",
     "block-string-reprint": "default-block-string-reprint",
-    "name-collision": "typeref-kind-name-collision",
     "builtin-redeclared": "builtin-redeclared-duplicate",
     "root-invented": "root-operation-invented",
 }
 # which excluded construct can explain a failure of which spec clause (Properties.v *_refuted)
 EXPLAINS = {
-    "roundtrip": ["interface-implements", "repeatable", "inputvalue-deprecated", "specified-by", "one-of",
-                  "string-escapes", "block-string-reprint", "builtin-redeclared", "root-invented"],
-    "complete_exact": ["string-escapes", "block-string-reprint", "name-collision", "builtin-redeclared", "root-invented"],
-    "typeref_faithful": ["name-collision"],
-    "generate_total": ["reason-null"],
+    "roundtrip": ["one-of", "string-escapes", "block-string-reprint", "builtin-redeclared", "root-invented"],
+    "complete_exact": ["string-escapes", "block-string-reprint", "builtin-redeclared", "root-invented"],
+    "typeref_faithful": [],
+    "generate_total": [],
 }
 
 
